@@ -89,7 +89,9 @@ def check(case):
                       acc_intermediate_unspellable=inter)
         return Result(classes=classes + ['call-raised'], sample=text)
     if not spellable:
-        return Result(classes=classes + ['unspellable-returned'], sample=text)
+        # the call was entitled to fail and did not: the notes whose result IS spellable, and everything that is not a
+        # pitch, are still held to the property; the unspellable notes and the way back are left open (as in C09)
+        classes = classes + ['unspellable-returned']
     out_e = K.dumps(t, 'dumps(transposed)', encoding=kp.Encoding.eKern)
     out_k = K.dumps(t, 'dumps(transposed)')
     # the measure structure belongs to "nothing else": same measure index, same answers to the measure queries
@@ -128,6 +130,8 @@ def check(case):
                         problems.append(Problem('rest-changed', f'{m0!r} -> {m1!r}', {}))
                     continue
                 exp_p = model_pitch(n, name, direction)
+                if exp_p is None:
+                    continue
                 dur = [p for p in pd0 if K.lexcat(p) == 'DURATION']
                 exp_kern = ''.join(dur) + exp_p + ''.join(de0)
                 got_kern = K.strip_sep(m1)
@@ -150,7 +154,7 @@ def check(case):
                                 {'after_equals_transposed': after == out_k, 'p1': name == 'P1'}))
     from ..grammar import ACC_SUFFIX_SIGS
     ambiguous = any(set(n['sigs']) & ACC_SUFFIX_SIGS for n in notes)  # X Z i j after a NEW accidental re-read as its display mark
-    if not ambiguous and not [p for p in problems if p.sig != 'source-changed']:
+    if spellable and not ambiguous and not [p for p in problems if p.sig != 'source-changed']:
         # the plain encodings of the result equal those of the document one gets by importing its kern export
         rel, rerr = kp.loads(out_k)
         if rerr:
@@ -169,7 +173,7 @@ def check(case):
                 if got_ != want:
                     dl = [(x, y) for x, y in zip(got_.split('\n'), want.split('\n')) if x != y][:3]
                     problems.append(Problem('transposed-encoding-differs', f'{enc} export of the transposed document differs from the same text imported: {dl}', {}))
-    if not [p for p in problems if p.sig != 'source-changed']:
+    if spellable and not [p for p in problems if p.sig != 'source-changed']:
         try:
             back = t.to_transposed(name, opposite)
         except Exception as e:  # noqa
